@@ -1487,6 +1487,11 @@ class Tensor:
 
         swizzled = Tensor.fromFiber(**kwargs)
 
+        # The ranks keep their formats and the tensor its mutability hint
+        swizzled.setMutable(self.isMutable())
+        for rank_id in self.getRankIds():
+            swizzled.setFormat(rank_id, self.getFormat(rank_id))
+
         # For each fiber, reset its active range
         frontier = [swizzled.getRoot()]
         while frontier:
